@@ -124,12 +124,14 @@ FIter == /\ "iter" \in Faults
                  LET n == IF grid = << >> THEN 2 ELSE C
                      a == IF op = "insert_row" THEN [index |-> Min2(i, R), items |-> Fresh(n)] ELSE [items |-> Fresh(n)] IN
                  \/ \E k \in 0..n : DoFault(op, a, PanicAt("next", k), Fresh(n), n)
+                 \/ DoFault(op, a, PanicAt("iter_drop", 0), Fresh(n), n)          \* the iterator's own destructor panics
                  \/ \E k \in 0..1 : DoFault(op, a, PanicAt("len", k), Fresh(n), n)
                  \/ \E how \in {"minus1", "plus1", "max"} : DoFault(op, a, Lie(how), Fresh(n), n)
             \/ \E op \in {"insert_col", "push_col"}, i \in Edge(C) :
                  LET n == IF grid = << >> THEN 2 ELSE R
                      a == IF op = "insert_col" THEN [index |-> Min2(i, C), items |-> Fresh(n)] ELSE [items |-> Fresh(n)] IN
                  \/ \E k \in 0..n : DoFault(op, a, PanicAt("next_back", k), Fresh(n), n)
+                 \/ DoFault(op, a, PanicAt("iter_drop", 0), Fresh(n), n)
                  \/ \E k \in 0..1 : DoFault(op, a, PanicAt("len", k), Fresh(n), n)
                  \/ \E how \in {"minus1", "plus1", "max"} : DoFault(op, a, Lie(how), Fresh(n), n)
 \* Clone panics at its k-th call
